@@ -217,13 +217,13 @@ pub fn run_c10(ctx: &Ctx, out: &mut Out) {
         }
         return;
     }
-    for i in 0..ctx.share(40_000, 400_000) {
+    for i in 0..ctx.share(40_000, 2_000_000) {
         api_identity(out, &mut rng, i);
         if i % 64 == 0 && !ctx.time_left() {
             break;
         }
     }
-    for i in 0..ctx.share(320, 4_000) {
+    for i in 0..ctx.share(320, 16_000) {
         let nr = rng.range(3, 10) as usize;
         let ni = rng.range(1, if ctx.thorough { 16 } else { 4 }) as usize;
         restarts(out, &mut rng, i, nr, ni);
@@ -430,7 +430,7 @@ pub fn run_c11(ctx: &Ctx, out: &mut Out) {
             }
         }
     }
-    for i in 0..ctx.share(400_000, 4_000_000) {
+    for i in 0..ctx.share(400_000, 20_000_000) {
         let secs = match rng.below(4) {
             0 => rng.below(1 << 32),
             1 => rng.range(1_600_000_000, 1_900_000_000),
@@ -447,7 +447,7 @@ pub fn run_c11(ctx: &Ctx, out: &mut Out) {
             break;
         }
     }
-    for k in 0..ctx.share(1_600, 16_000) {
+    for k in 0..ctx.share(1_600, 64_000) {
         brackets(out, &mut rng, k);
         if !ctx.time_left() {
             break;
